@@ -52,3 +52,26 @@ SPECS["C10"] = {
     "assumptions": ["priorities in 0..15 (0..7 in histories)"],
     "outside": ["more monitors/rules than the bounds", "negative priorities"],
 }
+
+SPECS["C14"] = {
+    "explanation": "The real stringValueRuntime.Eval (incl. the nested real parse+validate+eval of every group) is executed on a literal of N "
+                   "symbolic bytes over {'{','}','a'} with raw/quoted symbolic; asserted: no panic, terminates, raw untouched, result equals a "
+                   "one-pass reference (which evaluates each own group of the literal once with the same real evaluator and never rescans).",
+    "level_text": "bounded: for ALL literals up to the stated length over the alphabet the solver finds no panic, non-termination or deviation from the one-pass result",
+    "level_note": "trusts go/ssa, gosym (string intrinsics Index/Replace/Sprintf modelled byte-exactly), z3; alphabet and length bounded; variable a holds '{{a}}'",
+    "harnesses": [
+        {"name": "H1-literal-%d" % n, "pkg": "interpreter", "files": ["interpreter/c14.go"], "fn": "VerifC14Interpolation",
+         "what": "all literals of exactly %d bytes over {,},a; raw and quoted" % n, "reach": ["before-eval", "after-eval"],
+         "quick": {"params": {"N": n}, "unwind": 30, "wall_s": 300, "max_steps": 3000000} if n <= 6 else None,
+         "thorough": {"params": {"N": n}, "unwind": 30, "wall_s": 1500, "max_steps": 3000000}}
+        for n in (2, 4, 5, 6, 8, 9)
+    ] + [
+        {"name": "H1-literal-wide-%d" % n, "pkg": "interpreter", "files": ["interpreter/c14.go"], "fn": "VerifC14Interpolation",
+         "what": "all literals of exactly %d bytes over {,},a,space,+" % n, "reach": ["before-eval", "after-eval"],
+         "quick": {"params": {"N": n, "ALPHA": 1}, "unwind": 30, "wall_s": 300, "max_steps": 3000000} if n <= 5 else None,
+         "thorough": {"params": {"N": n, "ALPHA": 1}, "unwind": 30, "wall_s": 1500, "max_steps": 3000000}}
+        for n in (5, 7)
+    ],
+    "assumptions": ["alphabet {'{','}','a'}", "variable a bound to the string \"{{a}}\""],
+    "outside": ["longer literals", "other bytes / escape sequences (lexer-level unquoting is covered under C08/C18 harnesses)"],
+}
